@@ -127,6 +127,14 @@ Definition offline_set_c03 (f : fault) (p2p : bool) (s : store) (pv : pval_c03) 
     end
   end.
 
+(* the reply is not an error: {ctrl 200} (with or without params.acs) or {ctrl 304} *)
+Definition off_acked_c03 (r : offres_c03) : bool :=
+  match of_out r with
+  | [(_, Ctrl code _)] => code <? 400
+  | [(_, CtrlAcs code _ _ _)] => code <? 400
+  | _ => false
+  end.
+
 (* ------------------------------------------------------------------ *)
 (* evictUser's loop over t.sessions with remSession (ordinary sessions: no muids) *)
 Definition sesslist_c03 := list (N * (N * bool)).
